@@ -18,7 +18,7 @@ def run(ctx: evid.Ctx) -> None:
     b = bounds(ctx.tier)
     known = set(ctx.known)
     for role in ROLES:
-        res = sess.explore(role, b[role], known, ctx.seed, parallel=True)
+        res = sess.explore(role, b[role], known, ctx.seed, parallel=True, prop=PROP)
         sess.report(ctx, PROP, role, b[role], res)
         ctx.note(f"{role}_bfs_levels", res.levels)
     ctx.counters["evaluations"] = ctx.counters.get("transitions", 0)
